@@ -401,6 +401,10 @@ impl Runner {
             }
         }
         self.viols.sort_by_key(|v| v.index);
+        {
+            let mut seen = std::collections::HashSet::new();
+            self.viols.retain(|v| seen.insert((v.call.clone(), v.clause.clone(), v.args.clone())));
+        }
         self.viols.truncate(self.max_viols_kept);
         self.states += states;
         if capped.load(Ordering::Relaxed) {
@@ -464,7 +468,6 @@ impl Runner {
                 replay_paths.push(p);
             }
         }
-        let (dest, sat) = self.distinct.estimate();
         let worst: BTreeMap<String, Value> = self.worst.iter().map(|(k, (r, s))| (k.clone(), json!({"ratio_observed_over_tolerance": r, "at": s}))).collect();
         if self.samples.is_empty() {
             self.samples.push(json!("(no sample recorded)"));
@@ -479,8 +482,6 @@ impl Runner {
             "distinct_nontrivial": self.states,
             "rule": level_rule,
             "skipped_out_of_claimed_range": self.skipped,
-            "distinct_result_words_estimate": dest,
-            "distinct_result_sketch_saturated": sat,
             "result_digest": format!("{:016x}", self.digest),
             "phases": self.phases,
             "worst_ratio_per_clause": worst,
